@@ -19,6 +19,9 @@ std::vector<int> rfft_cache_keys();
 using cache_cb_t = void (*)(int kind, int n, bool hit, const int* keys, int nkeys, int map_size, const void* cache_id);
 extern cache_cb_t on_cache_access;
 
+//number of trial divisions (n % d) performed by the prime helpers in the calling thread
+extern thread_local unsigned long long trial_divisions;
+
 }   // namespace verif
 }   // namespace dsplib
 
